@@ -45,8 +45,8 @@ Section Agree.
     cbn [a_order a_curr a_napp a_rand a_nsh a_inner src_async_get_update_order src_async_get_curr
          src_async_get_num_applied src_async_get_shuffles src_async_get_apply_rule].
     destruct (m =? length o) eqn:E1;
-      destruct (Z.of_nat m =? Z.of_nat (length o))%Z eqn:E2; try lia; [|reflexivity].
-    destruct (Z.of_nat (length o) =? 0)%Z eqn:E3; [lia|].
+      destruct (Z.of_nat m =? Z.of_nat (length o))%Z eqn:E2; try lia; cbn [negb]; [|reflexivity].
+    destruct (Z.of_nat (length o) =? 0)%Z eqn:E3; [lia|]. cbn [bind].
     replace ((Z.of_nat k + 1) mod Z.of_nat (length o))%Z with (Z.of_nat ((k + 1) mod length o)) by lia.
     destruct rd; reflexivity.
   Qed.
